@@ -126,7 +126,7 @@ class CHECK(vlib.Check):
                 "Neutralize (= stop-counting conversion of the slot onto itself, then Reset of the non-counting slot).  Not modelled: Clone/EnsureRefIsPrivate, Prefill, SetMaxPoolSize, error-status payload of null refs, the "
                 "_prev/_next pointer representation of the slab list (the harness checks it describes the same sequence), references "
                 "shared between threads through mutex-protected containers (threads share objects through references copied at creation).")
-    premises = ["std::atomic increment / decrement-and-test are atomic and sequentially consistent; std::mutex excludes "
+    premises = ["std::atomic read-modify-write operations are atomic (the code shape `return (--_count == 0)` / `(++_count == 1)` on a std::atomic is translated and checked: C10_atomic_premise_tied) and sequentially consistent; std::mutex excludes "
                 "(memory ordering is runtime residue; free-running ASan/TSan stress is supporting evidence only)",
                 "data-race freedom of the Ref variables themselves, as the class documents: a thread writes only its own Ref "
                 "variables and member Refs of objects private to it (IsRefPrivate), and stores no reference to an object into itself",
@@ -165,6 +165,13 @@ class CHECK(vlib.Check):
                            ("S2:2", "np:0;sv:0:7/rs:s0/rs:s0/rs:s0;np:1;np:2;rs:s1;rs:s2")):
             for bits in range(512):
                 out.append(("sched-exhaustive", "%s:%d:%s|%s" % (hdr, S, ".".join(str((bits >> j) & 1) for j in range(9)), progs)))
+        # free-running, IN the verdict: real threads drop the last references to one object at the same instant, round after round.
+        # Definitive outcomes only (handed back != exactly once; pool not back to nothing-in-use / inconsistent; sanitizer / MASSERT
+        # death), so correct code cannot fail whatever the timing.  This is the stage that meets the real std::atomic code where no
+        # hook can: a decrement whose test is a separate read has no yield point between its halves.
+        for spec in (["R3:h:1500", "R2:h:1200", "R4:p:1500", "R3:p:1200", "R2:p:1000"] if tier == "quick" else
+                     ["R3:h:6000", "R2:h:5000", "R4:h:5000", "R4:p:6000", "R3:p:5000", "R2:p:5000"]):
+            out.append(("race", spec + "|"))
         # directed: the list-advance idiom (F11) over chains of 2..4 objects, heap and pooled
         for kind in ("nh", "np"):
             for N in (1, 2, 3):
@@ -205,6 +212,8 @@ class CHECK(vlib.Check):
         return out
 
     def nontrivial(self, case):
+        if case.startswith("R"):
+            return True
         if case.startswith("S"):
             return case.count("/") >= 3
         body = case.split("|", 1)[1]
@@ -252,7 +261,7 @@ class CHECK(vlib.Check):
         for s, c in sc:
             d["stream:" + s] = d.get("stream:" + s, 0) + 1
             hdr, body = c.split("|", 1)
-            hk = "hdr:N=%s" % hdr.lstrip("MS").split(":")[0]
+            hk = "hdr:N=%s" % hdr.lstrip("MSR").split(":")[0]
             d[hk] = d.get(hk, 0) + 1
             for o in body.replace("/", ";").split(";"):
                 if o:
